@@ -9,7 +9,10 @@
 (*     flag is TRUE and at least MinPoints evaluations were made;                        *)
 (*   - in a complete pass (between the markers "start" and "end") the obligations arrive *)
 (*     in the specification's own order without a gap, and at "end" none is left:        *)
-(*     coverage completeness is decided against the spec's enumeration.                  *)
+(*     coverage completeness is decided against the spec's enumeration.  All values of   *)
+(*     an evaluation come from one pass that calls ALL catalogue functions back to back  *)
+(*     on the same z (each twice, orders varied); at "end" every ordered pair of         *)
+(*     decomposition-based functions must have been adjacent at least once.              *)
 (* Outside a complete pass (replay of a single case) only the event itself is judged.    *)
 EXTENDS TraceBase, ComplexFun
 VARIABLES l, pos, strict
@@ -19,9 +22,13 @@ RSame(p, q) == p[1] = q[1] /\ p[2] = q[2]
 CSame(a, b) == RSame(a.re, b.re) /\ RSame(a.im, b.im)
 
 InRange(e) == e.pos \in 1..NOblig
+\* the interleaved evaluation made every ordered pair of decomposition-based functions (incl. each with itself) adjacent
+PairsCovered(e) == /\ {e.decomp[i] : i \in 1..Len(e.decomp)} = Decomp
+                   /\ e.pairs = Cardinality(Decomp) * Cardinality(Decomp)
 Valid(e, o) ==
   /\ e.op = o.kind /\ e.cond = o.cond
   /\ e.err_units <= 1 /\ e.range = TRUE
+  /\ e.repeat = TRUE                 \* every function called twice in a row on the same z returned identical bits
   /\ IF o.kind = "rel"
        THEN /\ e.rel = o.rel.id /\ e.ri = o.ri /\ e.gi = o.gi /\ e.relkind = o.rel.kind
             /\ e.rangef = o.range.f /\ e.rangeclosed = (o.range.loClosed /\ o.range.hiClosed) /\ e.amp = o.rel.amp /\ e.npts >= o.minpts
@@ -31,12 +38,13 @@ Init == l = 1 /\ pos = 1 /\ strict = FALSE /\ TLCSet(1, 0)
 Step == /\ l <= NRec
         /\ LET e == Rec[l]
            IN CASE e.op = "start" -> pos' = 1 /\ strict' = TRUE
-                [] e.op = "end" -> /\ IF strict /\ pos # NOblig + 1 THEN Mismatch(l, e, "coverage incomplete: next " \o ToString(pos)) ELSE TRUE
+                [] e.op = "end" -> /\ IF strict /\ pos # NOblig + 1 THEN Mismatch(l, e, "coverage incomplete: next " \o ToString(pos))
+                                      ELSE IF strict /\ ~PairsCovered(e) THEN Mismatch(l, e, "adjacent pairs not covered") ELSE TRUE
                                    /\ pos' = 1 /\ strict' = FALSE
                 [] e.op \in {"rel", "sqrt_exact", "powk"} ->
                      /\ IF ~InRange(e) THEN Mismatch(l, e, "not an obligation of the matrix")
                         ELSE IF strict /\ e.pos # pos THEN Mismatch(l, e, "coverage gap: expected " \o ToString(pos))
-                        ELSE IF ~Valid(e, Oblig(e.pos)) THEN Mismatch(l, e, e.op) ELSE TRUE
+                        ELSE IF ~Valid(e, Oblig(e.pos)) THEN Mismatch(l, e, IF e.repeat THEN e.op ELSE "repeated call differs") ELSE TRUE
                      /\ pos' = IF InRange(e) THEN e.pos + 1 ELSE pos
                      /\ UNCHANGED strict
                 [] OTHER -> Mismatch(l, e, "unknown event") /\ UNCHANGED <<pos, strict>>
